@@ -270,17 +270,20 @@ func genUciLines(t *rapid.T, maxLines int) uciLinesCase {
 	n := rapid.IntRange(1, maxLines).Draw(t, "lines")
 	cur := rc.MustParse(rc.StartFEN)
 	var posHist []uStep
+	restart := false // the last game-level event was a ucinewgame or a position command that must have been rejected
 	for i := 0; i < n; i++ {
 		var line string
 		switch rapid.IntRange(0, 9).Draw(t, "cmd") {
 		case 0:
-			line = rapid.SampledFrom([]string{"uci", "isready", "ucinewgame", "stop", "ponderhit", "debug on", "register later", "noop", ""}).Draw(t, "simple")
+			line = rapid.SampledFrom([]string{"uci", "isready", "ucinewgame", "ucinewgame", "ucinewgame", "stop", "ponderhit", "debug on", "register later", "noop", ""}).Draw(t, "simple")
 			if line == "ucinewgame" {
 				cur = rc.MustParse(rc.StartFEN)
+				restart = true
 			}
 		case 1, 2:
 			var st uStep
-			st, cur = genPositionStep(t, posHist, 10, 12)
+			st, cur = genPositionStepAfter(t, posHist, 10, 12, restart)
+			restart = false
 			posHist = append(posHist, st)
 			line = positionLine(st)
 		case 3, 4, 5:
@@ -335,6 +338,9 @@ func genUciLines(t *rapid.T, maxLines int) uciLinesCase {
 			p := hx.GenStart(t, 8)
 			line = "position fen " + mutateFen(t, p.FEN())
 		}
+		if k := strings.Fields(line); len(k) > 0 && k[0] == "position" && isFaulty(line) {
+			restart = true
+		}
 		if strings.HasPrefix(strings.TrimSpace(line), "quit") || resourceHog(line) {
 			hogsExcluded++
 			continue
@@ -347,7 +353,7 @@ func genUciLines(t *rapid.T, maxLines int) uciLinesCase {
 
 func runC16Uci(r *hx.Rec) {
 	r.Assume("UCI lines: resource-exhaustion inputs are excluded by construction (Hash > 16 MB, perft > 3, depth > 6, movetime > 300 ms, 'quit'); after every sequence the harness sends 'stop' and 'isready'")
-	hx.Sub(r, "uci-lines", r.N(250, 3000), func(t *rapid.T) uciLinesCase { return genUciLines(t, 14) }, propC16Uci)
+	hx.Sub(r, "uci-lines", r.N(400, 3000), func(t *rapid.T) uciLinesCase { return genUciLines(t, 14) }, propC16Uci)
 	r.Excluded("UCI lines whose only effect is resource exhaustion (Hash > 16 MB, perft > 3, quit)", hogsExcluded)
 	// one over-long line (longer than the default 64 kB scanner buffer)
 	hx.Enum(r, "uci-long-line", false, func(yield func(uciLinesCase) bool) {
